@@ -142,7 +142,8 @@ func (ss *ScenarioSet) Notes() []*ScenarioNote {
 	notes := make([]*ScenarioNote, 0)
 	for _, row := range ss.List {
 		if row.Note != nil {
-			notes = append(notes, row.Note)
+			// as SummaryFor adds it: the scenario's extension code is the note's code
+			notes = append(notes, row.Note.withCode(row.ExtCode))
 		}
 	}
 	return notes
